@@ -221,6 +221,7 @@ def gen_bit_case(r, tier):
                     ops.append("r %d" % c2)
             ops.append("s %d 0" % (nbits // 8))
     ops.append("e %d" % r.choice([0, 1]))
+    ops.append("x")
     total = nbits
     for _ in range(r.randrange(1, 3)):
         ops.append("or")
@@ -257,13 +258,94 @@ def run_batch(ctx, lines, tag):
         fh.write("\n".join(lines) + "\n")
     rc, R = vc.run_lines(exe, p, timeout=1500, args=[scratch])
     R = [l for l in R if l.startswith("R ") or l == "R"]
-    rcm, S = vc.run_lines(mod, p, timeout=1500)
+    rcm, out = vc.run_lines(mod, p, timeout=1500)
     os.unlink(p)
     if os.path.exists(scratch):
         os.unlink(scratch)
+    S = []
+    MB.clear()
+    for l in out:
+        if l.startswith("M ") and S:
+            MB[len(S) - 1] = l
+        else:
+            S.append(l)
     if rcm != 0 or len(S) != len(lines):
         raise vc.BuildError("model driver failed (rc=%d, %d lines for %d cases): %s" % (rcm, len(S), len(lines), S[-3:]))
     return rc, R, S
+
+
+MB = {}
+
+
+def model_lines(ctx, vlines, tag):
+    """run model-only directive lines (V ...) through the extracted model driver"""
+    if not vlines:
+        return []
+    _, mod = tools(ctx)
+    p = os.path.join(ctx.bdir, "harness", "c05-%s-%d.min" % (tag, os.getpid()))
+    with open(p, "w") as fh:
+        fh.write("\n".join(vlines) + "\n")
+    rcm, out = vc.run_lines(mod, p, timeout=1500)
+    os.unlink(p)
+    if rcm != 0 or len(out) != len(vlines):
+        raise vc.BuildError("model driver failed on V lines (rc=%d, %d of %d)" % (rcm, len(out), len(vlines)))
+    return out
+
+
+def vline(line, info):
+    """V directive for an element case whose stored form was dumped"""
+    t = line.split()
+    if t[0] != "E" or info["raw"] is None or info["hdr"] is None or len(info["hdr"]) < 20 or info["raw"] in ("!",):
+        return None
+    cref = int(info["hdr"][16:20], 16)
+    return "V %s %s %d %d %s %s" % (t[1], " ".join(t[2:7]), len(info["data"]) // 2, cref, info["data"] or "-",
+                                  info["raw"] if info["raw"] not in ("", "-") else "-")
+
+
+def check_model(line, info, mline, sig):
+    """(verdict, detail): verdict 'ok' | 'format' (raw stream wrong under the Coq decoder: a failing input)
+    | 'tie' (library and model differ although the data round-trips: correspondence broken)"""
+    f = dict(x.split("=", 1) for x in mline[2:].split())
+    data, raw = info["data"], (info["raw"] if info["raw"] not in ("-",) else "")
+    if f["dec"] != "na" and f["dec"] != "h" + data:
+        return "format", "raw DFTAG_COMPRESSED stream decodes under the extracted Coq decoder to %s, stored data %s" % (f["dec"][:60], data[:60])
+    if f["hdr"] != info["hdr"]:
+        return "tie", "description record: library %s, model hdr_record %s" % (info["hdr"], f["hdr"])
+    enc = f["enc"][1:]
+    if line.split()[1] in ("2", "3"):
+        # bit-level coders: the bits that complete the last byte are whatever the 4096-byte bit buffer held
+        enc = enc[:-2]
+    if sig is None and f["enc"] != "na" and not raw.startswith(enc):
+        return "tie", "encoder output: library %s..., model %s..." % (raw[:80], f["enc"][1:81])
+    return "ok", ""
+
+
+def gen_header_cases(r, n):
+    out = []
+    for _ in range(n):
+        c = r.choice([0, 1, 2, 2, 3, 3, 4])
+        if c == 2:
+            p = [r.choice(list(NT) + [r.randrange(1, 2 ** 31 - 1)]), r.choice([0, 1, 65535, r.randrange(65536)]),
+                 r.choice([0, 1, r.randrange(65536)]), r.choice([0, 7, 31, r.randrange(2 ** 31)]), r.choice([1, 8, 32, r.randrange(2 ** 31)])]
+        elif c == 3:
+            p = [r.choice([1, 2, 4, 8, 255, 65536, r.randrange(1, 2 ** 31)]), 0, 0, 0, 0]
+        elif c == 4:
+            p = [r.randrange(0, 10), 0, 0, 0, 0]
+        else:
+            p = [0] * 5
+        out.append("H %d %s" % (c, " ".join(map(str, p))))
+    for _ in range(n // 2):
+        c = r.choice([0, 1, 2, 3, 4])
+        body = [r.randrange(256) for _ in range(20)]
+        if c == 2:
+            body[0] &= 0x7f
+            body[8] &= 0x7f
+            body[12] &= 0x7f
+        if c == 3:
+            body[0] &= 0x7f
+        out.append("D 24 0 0 0 %d %s" % (c, " ".join(map(str, body))))
+    return out
+
 
 
 def compare_tokens(line, rline, sline):
@@ -295,6 +377,9 @@ def compare_tokens(line, rline, sline):
             info["hdr"], info["raw"], info["data"] = hdr, raw, s[1:]
             if info["comp"] is not None and raw not in ("-", "!") and len(raw) // 2 != info["comp"] and int(s and len(s[1:]) // 2) > 0:
                 return False, "op %d: compressed size reported %d, stored %d" % (i, info["comp"], len(raw) // 2), True, info
+            continue
+        if line.startswith("B") and r.startswith("x,"):
+            info["bitraw"] = r[2:]
             continue
         if s.startswith("b") or s.startswith("v"):
             moved = moved or len(s) > 1
@@ -387,10 +472,13 @@ def run(ctx):
                     ncorpus += 1
     lines += [gen_element_case(r, ctx.tier) for _ in range(n_el)]
     lines += [gen_bit_case(r, ctx.tier) for _ in range(n_bit)]
+    lines += gen_header_cases(r, 60 if ctx.tier == "quick" else 600)
     # the harness stops at a sanitizer report; restart it behind the crashing case so every case is explored
-    R, S, rcs, start = [], [], [], 0
+    R, S, rcs, start, mball = [], [], [], 0, {}
     while start < len(lines):
         rc, r1, s1 = run_batch(ctx, lines[start:], "main")
+        for k, ml in MB.items():
+            mball[start + k] = ml
         rcs.append(rc)
         R += r1
         S += s1[:len(r1)]
@@ -403,6 +491,7 @@ def run(ctx):
             break
     stats = {"cases": len(lines), "corpus": ncorpus, "harness_rcs": rcs, "by_kind": {}, "by_coder": {}, "ops": 0,
              "ext_domain": {}, "crashes": 0}
+    vjobs = []
     for i, line in enumerate(lines):
         if i >= len(R):
             break
@@ -421,6 +510,10 @@ def run(ctx):
             stats["crashes"] += 1
         if ok:
             ok, detail = check_raw(line, info)
+        if ok:
+            v = vline(line, info)
+            if v:
+                vjobs.append((i, v, info, sig))
         ctx.case(line, nontrivial, sample={"case": line[:160], "lib": (rl or "")[:120]} if i % 53 == 0 else None)
         if not ok:
             ctx.violation("library differs from the specification: " + detail,
@@ -429,6 +522,38 @@ def run(ctx):
                           found=True, signature=sig)
             if len(ctx.violations) >= 3:
                 break
+    # model phase: decode the library's raw streams with the extracted Coq decoders, compare encoders and records
+    mstats = {"verified_streams": 0, "encoder_compared": 0, "bit_histories_on_model": 0, "by_coder": {}}
+    mout = model_lines(ctx, [v for _, v, _, _ in vjobs], "v") if not ctx.violations else []
+    for (i, v, info, sig), ml in zip(vjobs, mout):
+        verdict, detail = check_model(lines[i], info, ml, sig)
+        mstats["verified_streams"] += 1
+        mstats["encoder_compared"] += 1 if sig is None else 0
+        c = lines[i].split()[1]
+        mstats["by_coder"][c] = mstats["by_coder"].get(c, 0) + 1
+        if verdict == "format":
+            ctx.violation("stored form violates the format: " + detail,
+                          "# C05 replay\n# " + detail + "\n" + lines[i] + "\n# " + v[:400] + "\n# " + ml[:400], found=True, signature=sig)
+        elif verdict == "tie":
+            ctx.violation("correspondence model~library broken (data still round-trips): " + detail,
+                          "# C05: relation M~R no longer holds: " + detail + "\n" + lines[i] + "\n# " + ml[:400], found=False)
+        if len(ctx.violations) >= 3:
+            break
+    # bit histories: model line against library line
+    for idx, ml in sorted(mball.items()):
+        if idx >= len(R) or R[idx] is None or ctx.violations:
+            continue
+        rt, mt = R[idx][2:].split("|"), ml[2:].split("|")
+        mstats["bit_histories_on_model"] += 1
+        for k, m in enumerate(mt):
+            if m == "?":
+                break
+            if k >= len(rt) or (rt[k] != m and not (m.startswith("x,") and rt[k].startswith("x,") and rt[k][2:-2] == m[2:-2])):
+                ctx.violation("correspondence bit-I/O model~library broken at op %d: library %s, model %s" % (k, rt[k][:60] if k < len(rt) else "-", m[:60]),
+                              "# C05: relation bw_write/br_read ~ Hbitwrite/Hbitread no longer holds\n" + lines[idx] +
+                              "\n# library: " + R[idx][:600] + "\n# model:   " + ml[:600], found=False)
+                break
+    ctx.corr("library~model", **mstats)
     if len(R) < len(lines) and not ctx.violations:
         ctx.violation("harness kept crashing; %d of %d cases explored" % (len(R), len(lines)),
                       "# C05: harness restarted %d times\n" % len(rcs) + lines[min(len(R), len(lines) - 1)], found=True)
